@@ -30,6 +30,20 @@ def model_abs(model):
     groups = []
     for g in model.group_terms:
         groups.append([term_abs(g.expr), term_abs(g.factor)])
+    # the name of a term spells exactly its factors, each once, in the order of the components
+    def _name_ok(term):
+        if type(term).__name__ in ("Intercept", "NegatedIntercept"):
+            return True
+        return str(term.name) == ":".join(str(c.name) for c in term.components)
+
+    bad_names = [str(t.name) for t in model.common_terms if not _name_ok(t)]
+    for g in model.group_terms:
+        if not (_name_ok(g.expr) and _name_ok(g.factor)):
+            bad_names.append(str(g.name))
+        else:
+            e = "1" if type(g.expr).__name__ == "Intercept" else str(g.expr.name)
+            if str(g.name) != e + "|" + str(g.factor.name):
+                bad_names.append(str(g.name))
     n_terms, n_groups = len(terms), len(groups)
     terms = sorted({tuple(t) for t in terms})
     groups = sorted({(tuple(e), tuple(f)) for e, f in groups})
@@ -40,4 +54,5 @@ def model_abs(model):
         "groups": [[list(e), list(f)] for e, f in groups],
         "dup_terms": n_terms - len(terms),
         "dup_groups": n_groups - len(groups),
+        "bad_names": bad_names,
     }
